@@ -230,6 +230,9 @@ def _set_menus(sub):
             [">", ["+", ["*", a, "0.12"], ["*", c, "1.00001"]], "0.005"],
             ["<", ["*", ["*", a, c], "2.5"], "3.00001"],
             [">=", ["+", a, c], "0.99999"],
+            # twins that differ only beyond the 4th decimal and do not imply one another
+            ["<=", ["+", ["*", "1.00001", a], ["*", "0.99999", b]], "3"],
+            ["<=", ["+", ["*", "0.99999", a], ["*", "1.00001", b]], "3"],
         ]
     return eqs, ineqs
 
